@@ -1287,15 +1287,74 @@ theorem setSlotH_along_walk {h : Heap} {rank : Addr → Nat} (hr : h.RankedBy ra
           simp only [padH_eq_self (Nat.succ_le_of_lt hlt), hset, set_of_getElem? hcur]
           rw [write_same (by rw [get?_write_ne h _ hal]; exact hg)]
 
+/-- DEEP DETACHMENT, without any reachability condition on the new children (the variant of
+    `cell_write_detaches_deep` in YtkProofs/HeapBuilder.lean whose side condition `¬ Reach h k x` is not
+    needed): below `root` (a tree), the cell `x` is rewritten so that the slot `sy` that held `y` is gone
+    or holds something else — every child of the new cell is an old child from ANOTHER slot, or a node
+    that shares no container / list with `y`.  Afterwards `root` and `y` share no container / list. -/
+theorem cell_write_detaches_deep' {h : Heap} {rank : Addr → Nat} (hr : h.RankedBy rank) {root x y : Addr}
+    (hs : SibSep h root) (hrx : Reach h root x) {cx cx' : Cell} (hg : h.get? x = some cx)
+    {sy : Nat} (hsy : cx.kids[sy]? = some y)
+    (hk : ∀ k ∈ cx'.kids, (∃ (j : Nat), j ≠ sy ∧ cx.kids[j]? = some k) ∨ Apart h k y) :
+    Apart (h.write x cx') root y := by
+  have hyk : y ∈ cx.kids := List.mem_of_getElem? hsy
+  have hyx : ¬ Reach h y x := fun hr' => not_reach_parent hr hg hyk hr' rfl
+  have hxlt := get?_lt hg
+  intro b hrb hyb hcomp
+  have hyb' : Reach h y b := (reach_write_frame _ hyx).mp hyb
+  have hbx : b ≠ x := fun e => hyx (e ▸ hyb')
+  have hcomp' : Composite h b := by
+    obtain ⟨cell, hgb, hl⟩ := hcomp
+    rw [get?_write_ne h _ hbx] at hgb
+    exact ⟨cell, hgb, hl⟩
+  let S : Addr → Prop := fun a =>
+    (Reach h root a ∨ ∃ k ∈ cx'.kids, Apart h k y ∧ Reach h k a) ∧ ¬ (Reach h y a ∧ Composite h a)
+  have hroot : S root := ⟨Or.inl (.refl _), fun hh => hyx (hh.1.trans hrx)⟩
+  have hclosed : ∀ a cell, S a → (h.write x cx').get? a = some cell → ∀ k ∈ cell.kids, S k := by
+    intro a cell hSa hga k hkm
+    by_cases hax : a = x
+    · subst hax
+      rw [get?_write_self h _ hxlt] at hga
+      cases Option.some.inj hga
+      rcases hk k hkm with ⟨j, hj, hjk⟩ | hnew
+      · refine ⟨Or.inl (hrx.trans (.step hg (List.mem_of_getElem? hjk) (.refl _))), ?_⟩
+        intro hh
+        exact hs a _ hrx hg j sy k y hjk hsy hj k (.refl _) hh.1 hh.2
+      · exact ⟨Or.inr ⟨k, hkm, hnew, .refl _⟩, fun hh => hnew k (.refl _) hh.1 hh.2⟩
+    · rw [get?_write_ne h _ hax] at hga
+      obtain ⟨hside, hnot⟩ := hSa
+      refine ⟨?_, fun hh => ?_⟩
+      · rcases hside with hside | ⟨p, hp, hnew, hpa⟩
+        · exact Or.inl (hside.trans (.step hga hkm (.refl _)))
+        · exact Or.inr ⟨p, hp, hnew, hpa.trans (.step hga hkm (.refl _))⟩
+      · rcases hside with hside | ⟨p, hp, hnew, hpa⟩
+        · obtain ⟨ia, hia⟩ := List.getElem?_of_mem hkm
+          rcases reach_last hh.1 with e | ⟨pp, cp, hypp, hgpp, hkpp⟩
+          · subst e
+            have := (unique_parent hr (rank root) root (Nat.le_refl _) hs a x k cell cx ia sy hside hrx hga hg
+              hia hsy hh.2).1
+            exact hax this
+          · obtain ⟨ip, hip⟩ := List.getElem?_of_mem hkpp
+            have hrpp : Reach h root pp := hrx.trans (.step hg hyk hypp)
+            have := (unique_parent hr (rank root) root (Nat.le_refl _) hs a pp k cell cp ia ip hside hrpp hga hgpp
+              hia hip hh.2).1
+            subst this
+            refine hnot ⟨hypp, cell, hga, ?_⟩
+            cases cell with
+            | leaf _ => simp [Cell.kids] at hkm
+            | list _ => rfl
+            | cont _ => rfl
+        · exact hnew k (hpa.trans (.step hga hkm (.refl _))) hh.1 hh.2
+  have hSb : S b := Reach.closed_set S hclosed hrb hroot
+  exact hSb.2 ⟨hyb', hcomp'⟩
+
 /-- `x.AddValue(last, v)` on a container `x` of a tree-shaped document, for EVERY name (plain or with
     index groups `b[i]…[k]`): the node `y` that `x.Child(last)` returned before is detached from the
-    whole document, provided the new node shares no container / list with `y` and reaches no container /
-    list below `x` (`HOp.Ok` for a call on `x`).  With index groups the only content change is the slot
-    of the deepest list. -/
+    whole document, provided the new node shares no container / list with `y` — nothing else is asked of
+    `v`.  With index groups the only content change is the slot of the deepest list. -/
 theorem addH_detaches_deep {h h' : Heap} {rank : Addr → Nat} (hr : h.RankedBy rank) (hm : h.MapsOk)
     {root x v y : Addr} (hs : SibSep h root) (hrx : Reach h root x) {last : String}
-    (hy : childH h x last = some y) (hvy : Apart h v y)
-    (hvx : ∀ w, Reach h x w → Composite h w → ¬ Reach h v w) (he : addH h x last v = some h') :
+    (hy : childH h x last = some y) (hvy : Apart h v y) (he : addH h x last v = some h') :
     Apart h' root y := by
   unfold addH at he
   unfold childH at hy
@@ -1309,10 +1368,19 @@ theorem addH_detaches_deep {h h' : Heap} {rank : Addr → Nat} (hr : h.RankedBy 
     | nil =>
       simp only [Option.some.injEq] at hy he
       subst he
-      refine write_detaches_deep hr hs hrx hg hy (fun p hp => ?_)
-      rcases mem_insert_ne (hm x kvs hg) hp with hp | hp
-      · exact Or.inl hp
-      · exact Or.inr (by rw [hp]; exact ⟨hvy, hvx x (.refl _) ⟨_, hg, rfl⟩⟩)
+      obtain ⟨sy, hsy⟩ := List.getElem?_of_mem (AMap.mem_of_get? hy)
+      refine cell_write_detaches_deep' (sy := sy) hr hs hrx hg (by simp [Cell.kids, List.getElem?_map, hsy]) ?_
+      intro k hkm
+      simp only [Cell.kids, List.mem_map] at hkm
+      obtain ⟨p, hp', rfl⟩ := hkm
+      rcases mem_insert_ne (hm x kvs hg) hp' with ⟨hpk, hpn⟩ | hpv
+      · left
+        obtain ⟨ip, hip⟩ := List.getElem?_of_mem hpk
+        refine ⟨ip, ?_, by simp [Cell.kids, List.getElem?_map, hip]⟩
+        intro e; subst e
+        rw [hip] at hsy
+        exact hpn (by cases hsy; rfl)
+      · exact Or.inr (by rw [hpv]; exact hvy)
     | cons i is =>
       simp only at hy he
       obtain ⟨a, l, xs, i', hcur, hal, hgl, hyi, hset⟩ := setSlotH_along_walk hr v y (i :: is) _ (by simp) hy
@@ -1325,19 +1393,28 @@ theorem addH_detaches_deep {h h' : Heap} {rank : Addr → Nat} (hr : h.RankedBy 
         rw [← he, Refine.AMap.insert_of_get? (hm x kvs hg) hcur]
         exact write_same (by rw [get?_write_ne h _ hxl]; exact hg)
       rw [hh]
-      exact list_set_detaches_deep hr hs (hrx.trans hxl') hgl hyi hvy (hvx l hxl' ⟨_, hgl, rfl⟩)
+      refine cell_write_detaches_deep' (sy := i') hr hs (hrx.trans hxl') hgl hyi ?_
+      intro k hkm
+      simp only [Cell.kids] at hkm
+      obtain ⟨j, hj⟩ := List.getElem?_of_mem hkm
+      by_cases hji : j = i'
+      · subst hji
+        have hlt : j < xs.length := (List.getElem?_eq_some_iff.mp hyi).1
+        rw [List.getElem?_set_self hlt] at hj
+        cases hj
+        exact Or.inr hvy
+      · rw [List.getElem?_set_ne (Ne.symm hji)] at hj
+        exact Or.inl ⟨j, hji, hj⟩
   · cases he
 
-/-- DETACHMENT BY A PATH WRITE, every path: when the walk of `segs` ends in the existing container `x`,
-    `AddValueAt(segs, v)` detaches the node `Lookup(segs)` returned before -/
+/-- DETACHMENT BY A PATH WRITE, every path, no condition on the new node but `Apart h v y` -/
 theorem pathwrite_detaches_full {h h' : Heap} {rank : Addr → Nat} (hr : h.RankedBy rank) (hm : h.MapsOk)
     {root x y v : Addr} (hs : SibSep h root) {segs : List String}
     (ha : ancestorH h root segs = some x) (hy : lookupSegsH h root segs = some y) (hvy : Apart h v y)
-    (hvx : ∀ w, Reach h x w → Composite h w → ¬ Reach h v w) (he : addAtSegsH h root segs v = some h') :
-    Apart h' root y := by
+    (he : addAtSegsH h root segs v = some h') : Apart h' root y := by
   obtain ⟨last, _, h1, _, h3⟩ := ancestorH_spec v segs root x ha
   rw [h1] at he
   rw [h3] at hy
-  exact addH_detaches_deep hr hm hs (ancestorH_reach segs root x ha) hy hvy hvx he
+  exact addH_detaches_deep hr hm hs (ancestorH_reach segs root x ha) hy hvy he
 
 end Ytk.Heap
